@@ -44,6 +44,7 @@ ASYNC_REST_YAML = yaml_with([]) + ('publishing:\n  library_settings:\n  - versio
 OPTSETS = {
     'default': ('transport=grpc+rest', None),
     'grpc': ('transport=grpc', None),
+    'rest+grpc': ('transport=rest+grpc', None),
     'rest': ('transport=rest', None),
     'numeric-enums': ('transport=grpc+rest,rest-numeric-enums', None),
     'yaml-operations': ('transport=grpc+rest,service-yaml=@svc.yaml@', {'svc.yaml': yaml_with(['google.longrunning.Operations'])}),
